@@ -37,7 +37,8 @@ def judge (spec : String) (params : List Nat) (ops : List (OpRec GOp GRet)) : Op
   | "maxpq", [cap] => some (linCheck (maxpq cap) ops)
   | "maxpq", [] => some (linCheck (maxpq 0) ops)
   | "map", _ => some (linCheck map ops)
-  | "maprelaxed", _ => some (linCheck mapRelaxed ops)
+  | "mapc", _ => some (linCheck mapConc ops)
+  | "mapr", _ => some (linCheck mapRelaxed ops)
   | "bag", _ => some (linCheck (bag []) ops)
   | "lock", [n] => some (linCheck (lockSpec false n) ops)
   | "rlock", [n] => some (linCheck (lockSpec true n) ops)
